@@ -81,7 +81,9 @@ func containingRepo(d *kern.Disk, file string) string {
 func composeWorkflow(c *Chooser, o GenOpts, wi int) (text string, assetNames []string, groups []string) {
 	if o.Ties && c.Weighted("world.tiewf", 1, 12) {
 		i := c.Int("world.tiewfsel", len(tieWorkflows))
-		return tieWorkflows[i], nil, []string{fmt.Sprintf("tie-workflow-%d", i)}
+		if len(tieWorkflows[i].Assets) == 0 || o.Defective {
+			return tieWorkflows[i].Text, tieWorkflows[i].Assets, []string{fmt.Sprintf("tie-workflow-%d", i)}
+		}
 	}
 	var hdr string
 	if o.Ties && c.Weighted("world.tiehdr", 1, 4) {
@@ -269,9 +271,12 @@ func GenMulti(c *Chooser, o GenOpts) *MultiWorld {
 	if o.Loose && c.Weighted("world.loose", 1, 4) {
 		text, _, groups := composeWorkflow(c, GenOpts{Ties: o.Ties}, 99)
 		if !strings.Contains(text, "uses: ./") {
-			disk.Put("/tmp/loose.yml", []byte(text))
-			all = append(all, "/tmp/loose.yml")
-			mw.Groups["/tmp/loose.yml"] = groups
+			// outside every repository: in an unrelated directory, or in a directory that is an
+			// ancestor of repositories (/w contains /w/app ...)
+			lp := []string{"/tmp/loose.yml", "/w/loose.yml"}[c.Int("world.loosedir", 2)]
+			disk.Put(lp, []byte(text))
+			all = append(all, lp)
+			mw.Groups[lp] = groups
 		}
 	}
 	// argument subset and order
